@@ -1,10 +1,16 @@
+#!/usr/bin/env python3
+"""Generates the text of TJ.MiniC.Hoare.compress_body (lean/TJ/Proofs/HashC.lean) from a symbolic simulation of the 28 load/store groups
+and the two permutation calls of tinyjambu_hash_compress.  The output is proof text only: Lean checks it against the term regenerated
+from the C source, so a wrong simulation cannot prove anything.  Usage: python3 tools/gen_compress_proof.py > /tmp/compress_body.txt"""
 # generates the main proof of the regenerated tinyjambu_hash_compress from a symbolic simulation
 S=['s0','s1','s2','s3','k0','k1','k2','k3','m0','m1','m2','m3']
 A=[None]*4; B=[None]*4
 def L(xs): return '['+', '.join('none' if x is None else 'some (%s)'%x for x in xs)+']'
 def W(): return 'mkW %s %s %s'%(L(S),L(A),L(B))
 blk={'S':S,'A':A,'B':B}
-steps=[]
+class _L(list):
+    def append(self,x): list.append(self,(x,W()))
+steps=_L()
 EV="evalE, hx, reduceCtorEq, if_false"
 BIN="BinOp.needsPub2, BinOp.needsPub1, Bool.false_and, Bool.or_self, Bool.false_eq_true, Lab.join_sec_left, Lab.join_sec_right"
 def step1(d,jd,l,il,t,x,r,inplace,valtac):
@@ -41,5 +47,23 @@ for i in range(4):
     steps.append(step2('S',4+i,'S',i,'A',i,44+3*i,45+3*i,46+3*i,'~~~ ((%s) ^^^ (%s))'%(S[i],A[i]),"simp only [evalE, hx, hy, reduceCtorEq, if_false, %s, binVal_bxor_u32, unVal_bnot_u32]"%BIN))
 for i in range(4):
     steps.append(step1('S',i,'B',i,56+2*i,57+2*i,B[i],False,"simp only [%s]"%EV))
-# replay to emit with W after each
-S[:]=['s0','s1','s2','s3','k0','k1','k2','k3','m0','m1','m2','m3']; A[:]=[None]*4; B[:]=[None]*4
+
+out=[]
+out.append("set_option linter.unusedSimpArgs false in\ntheorem compress_body (prog : Program) (hperm : prog[idx_tinyjambu_permutation_256]? = some f_tinyjambu_permutation_256) (g : Geo)\n"
+ "    (d32 : UInt32) (hd : g.dom = d32.toNat) (hd8 : d32.toNat < 256) (env : Env) (st : St) (s0 s1 s2 s3 k0 k1 k2 k3 m0 m1 m2 m3 : UInt32)\n"
+ "    (ci : CI g env st (mkW [some s0, some s1, some s2, some s3, some k0, some k1, some k2, some k3, some m0, some m1, some m2, some m3]\n"
+ "      [none, none, none, none] [none, none, none, none])) :\n"
+ "    RunsTo prog f_tinyjambu_hash_compress.body env st (fun sig e s => sig = .normal ∧ CI g e s (%s)) := by\n  simp only [f_tinyjambu_hash_compress]" % steps[-1][1])
+prev='ci'
+for i,(call,w) in enumerate(steps):
+    c=call.replace('CI_',prev)
+    isperm=c.startswith('stepPerm')
+    hp="(fun s' h => ⟨rfl, h.congr (fun k => by cases k <;> rfl)⟩)" if isperm else "(fun e' s' h => ⟨rfl, h.congr (fun k => by cases k <;> rfl)⟩)"
+    if i<len(steps)-1:
+        out.append("  refine runs_seq (Q := fun e s => CI g e s (%s)) ?_ ?_"%w)
+        out.append("  · exact %s\n      %s"%(c,hp))
+        out.append("  intro e%d t%d c%d"%(i+1,i+1,i+1))
+        prev='c%d'%(i+1)
+    else:
+        out.append("  exact %s\n      %s"%(c,hp))
+print('\n'.join(out))
